@@ -42,6 +42,24 @@ type r2pSeg struct {
 	lit  string
 	hole map[string]bool // access paths (nil for a literal segment)
 	imp  bool            // implicit flow: the text was chosen under a branch on these paths (counts for flags/operators only)
+	// chain: the formatting steps applied to the hole's value, innermost first ("conv:int64", "%d", "helper:escape",
+	// "FormatFloat('f',-1,64)", "trim", …) — used by R-print-payload
+	chain []string
+}
+
+// wrap records a formatting step on every data hole of the template.
+func (t r2pTmpl) wrap(op string) r2pTmpl {
+	if len(t) == 0 {
+		return t
+	}
+	out := make(r2pTmpl, len(t))
+	for i, sg := range t {
+		if sg.hole != nil && !sg.imp {
+			sg.chain = append(append([]string(nil), sg.chain...), op)
+		}
+		out[i] = sg
+	}
+	return out
 }
 
 type r2pTmpl []r2pSeg
@@ -112,19 +130,10 @@ func r2pImplicit(paths []string) r2pTmpl {
 // holesOnly: the template with its literal text removed (an opaque helper was applied).
 func (t r2pTmpl) holesOnly() r2pTmpl {
 	var out r2pTmpl
-	if h := t.holes(); len(h) > 0 {
-		out = append(out, r2pSeg{hole: h})
-	}
-	imp := map[string]bool{}
-	for _, s := range t {
-		if s.imp {
-			for p := range s.hole {
-				imp[p] = true
-			}
+	for _, sg := range t {
+		if sg.hole != nil {
+			out = append(out, sg)
 		}
-	}
-	if len(imp) > 0 {
-		out = append(out, r2pSeg{hole: imp, imp: true})
 	}
 	return out
 }
@@ -285,6 +294,11 @@ func r2pEnclosing(body *ast.BlockStmt) map[ast.Stmt][]ast.Expr {
 func (e *r2pPrinter) eval(st *r2pState, x ast.Expr) r2pTmpl {
 	info := e.info
 	x = ast.Unparen(x)
+	if call, ok := x.(*ast.CallExpr); ok {
+		if tv, ok := info.Types[call.Fun]; ok && tv.IsType() {
+			return e.evalCall(st, call) // a conversion is a formatting step, not part of the access path
+		}
+	}
 	if p := e.pathOf(st, x); p != "" {
 		// a local aliasing a path has no template of its own
 		if id, ok := x.(*ast.Ident); ok {
@@ -327,7 +341,7 @@ func (e *r2pPrinter) eval(st *r2pState, x ast.Expr) r2pTmpl {
 		// table[key]: the text is chosen by the key
 		return r2pCat(e.eval(st, y.X), e.eval(st, y.Index).holesOnly())
 	case *ast.SliceExpr:
-		return e.eval(st, y.X)
+		return e.eval(st, y.X).wrap("slice")
 	case *ast.TypeAssertExpr:
 		return e.eval(st, y.X)
 	case *ast.CompositeLit:
@@ -352,7 +366,11 @@ func (e *r2pPrinter) evalCall(st *r2pState, call *ast.CallExpr) r2pTmpl {
 	info := e.info
 	if tv, ok := info.Types[call.Fun]; ok && tv.IsType() {
 		if len(call.Args) == 1 {
-			return e.eval(st, call.Args[0])
+			t := e.eval(st, call.Args[0])
+			if types.Identical(types.Unalias(tv.Type), types.Unalias(info.TypeOf(call.Args[0]))) {
+				return t
+			}
+			return t.wrap("conv:" + types.TypeString(tv.Type, func(*types.Package) string { return "" }))
 		}
 		return nil
 	}
@@ -393,14 +411,58 @@ func (e *r2pPrinter) evalCall(st *r2pState, call *ast.CallExpr) r2pTmpl {
 		}
 		return args(0)
 	case "fmt.Sprint", "fmt.Sprintln":
-		return args(0)
+		return args(0).wrap("%v")
 	case "strings.Join":
 		if len(call.Args) == 2 {
 			return e.eval(st, call.Args[0])
 		}
-	case "strings.ReplaceAll", "strings.Replace", "strings.TrimSpace", "strings.TrimSuffix", "strings.TrimPrefix", "strings.TrimRight", "strings.TrimLeft", "strings.Trim", "strings.Repeat":
+	case "strings.TrimSpace", "strings.Repeat":
 		if len(call.Args) >= 1 {
 			return e.eval(st, call.Args[0])
+		}
+	case "strings.ReplaceAll", "strings.Replace":
+		// re-indentation (whitespace for whitespace) leaves the text of a payload alone
+		if len(call.Args) >= 3 {
+			t := e.eval(st, call.Args[0])
+			if r2pWhitespaceLit(info, call.Args[1]) && r2pWhitespaceLit(info, call.Args[2]) {
+				return t
+			}
+			return t.wrap("replace")
+		}
+	case "strings.TrimSuffix", "strings.TrimPrefix", "strings.TrimRight", "strings.TrimLeft", "strings.Trim":
+		if len(call.Args) >= 2 {
+			t := e.eval(st, call.Args[0])
+			if r2pWhitespaceLit(info, call.Args[1]) {
+				return t
+			}
+			return t.wrap("trim")
+		}
+	case "strings.ToUpper", "strings.ToLower", "strings.Title", "strings.ToTitle":
+		if len(call.Args) >= 1 {
+			return e.eval(st, call.Args[0]).wrap("case")
+		}
+	case "strconv.Itoa":
+		return args(0).wrap("%d")
+	case "strconv.FormatInt", "strconv.FormatUint":
+		if len(call.Args) == 2 {
+			if k, ok := r2pConstInt(info, call.Args[1]); ok && k == 10 {
+				return e.eval(st, call.Args[0]).wrap("%d")
+			}
+			return e.eval(st, call.Args[0]).wrap("FormatInt(base " + exprStr(call.Args[1]) + ")")
+		}
+	case "strconv.FormatBool":
+		return args(0).wrap("%v")
+	case "strconv.Quote":
+		return args(0).wrap("Quote")
+	case "strconv.FormatFloat":
+		if len(call.Args) == 4 {
+			f, okf := r2pConstInt(info, call.Args[1])
+			pr, okp := r2pConstInt(info, call.Args[2])
+			bs, okb := r2pConstInt(info, call.Args[3])
+			if okf && okp && okb {
+				return e.eval(st, call.Args[0]).wrap(fmt.Sprintf("FormatFloat('%c',%d,%d)", rune(f), pr, bs))
+			}
+			return e.eval(st, call.Args[0]).wrap("FormatFloat(?)")
 		}
 	}
 	// method call
@@ -408,9 +470,14 @@ func (e *r2pPrinter) evalCall(st *r2pState, call *ast.CallExpr) r2pTmpl {
 		if sel := info.Selections[se]; sel != nil && sel.Kind() == types.MethodVal {
 			if p := e.pathOf(st, se.X); p != "" {
 				// a method of a field (String(), Ident(), …) stands for the field's text
-				return r2pCat(r2pHole(p), args(0).holesOnly())
+				return r2pCat(r2pHole(p).wrap("method:"+se.Sel.Name), args(0).holesOnly())
 			}
 			if id, ok := ast.Unparen(se.X).(*ast.Ident); ok {
+				// escaper.Replace(text) on a package-level *strings.Replacer of the module: a string -> string helper
+				if v, ok := info.Uses[id].(*types.Var); ok && v.Pkg() != nil && v.Parent() == v.Pkg().Scope() && strings.HasPrefix(v.Pkg().Path(), ModPath) &&
+					callee != nil && callee.FullName() == "(*strings.Replacer).Replace" {
+					return args(0).holesOnly().wrap("helper:" + v.Pkg().Path() + "." + v.Name())
+				}
 				if t, ok := st.tmpl[info.Uses[id]]; ok {
 					// x.String() of a local builder / x.method(args)
 					return r2pCat(t, args(0).holesOnly())
@@ -419,8 +486,44 @@ func (e *r2pPrinter) evalCall(st *r2pState, call *ast.CallExpr) r2pTmpl {
 			return r2pCat(e.eval(st, se.X), args(0)).holesOnly()
 		}
 	}
+	// a helper of the module from one string to a string (an escaper): keeps what flows in
+	if callee != nil && e.m.decls[callee] != nil {
+		sg := callee.Type().(*types.Signature)
+		if sg.Params().Len() == 1 && sg.Results().Len() == 1 && r2pIsString(sg.Params().At(0).Type()) && r2pIsString(sg.Results().At(0).Type()) {
+			return args(0).holesOnly().wrap("helper:" + callee.FullName())
+		}
+	}
 	// any other function: opaque, keeps what flows in
-	return args(0).holesOnly()
+	name := "?"
+	if callee != nil {
+		name = callee.Name()
+	}
+	return args(0).holesOnly().wrap("call:" + name)
+}
+
+func r2pIsString(t types.Type) bool {
+	b, ok := types.Unalias(t).Underlying().(*types.Basic)
+	return ok && b.Info()&types.IsString != 0
+}
+
+func r2pConstInt(info *types.Info, x ast.Expr) (int64, bool) {
+	tv, ok := info.Types[x]
+	if !ok || tv.Value == nil {
+		return 0, false
+	}
+	if v, ok := constant.Int64Val(constant.ToInt(tv.Value)); ok {
+		return v, true
+	}
+	return 0, false
+}
+
+// r2pWhitespaceLit: a constant string made of white space only (indentation).
+func r2pWhitespaceLit(info *types.Info, x ast.Expr) bool {
+	tv, ok := info.Types[x]
+	if !ok || tv.Value == nil || tv.Value.Kind() != constant.String {
+		return false
+	}
+	return strings.TrimSpace(constant.StringVal(tv.Value)) == ""
 }
 
 func (e *r2pPrinter) format(st *r2pState, f string, args []ast.Expr) r2pTmpl {
@@ -435,7 +538,7 @@ func (e *r2pPrinter) format(st *r2pState, f string, args []ast.Expr) r2pTmpl {
 		// "%%" is not matched by the verb expression (its letter class excludes '%')
 		out = append(out, r2pLit(rest[:loc[0]]))
 		if idx < len(args) {
-			out = append(out, e.eval(st, args[idx]))
+			out = append(out, e.eval(st, args[idx]).wrap(rest[loc[0]:loc[1]]))
 		}
 		idx++
 		rest = rest[loc[1]:]
@@ -474,6 +577,7 @@ func (e *r2pPrinter) setVar(st *r2pState, lhs ast.Expr, t r2pTmpl, accumulate bo
 func (e *r2pPrinter) onStmt(st *r2pState, s ast.Stmt) (*r2pState, bool) {
 	switch x := s.(type) {
 	case *ast.AssignStmt:
+		e.noteFieldStores(st, x)
 		if len(x.Lhs) == len(x.Rhs) {
 			vals := make([]r2pTmpl, len(x.Rhs))
 			imp := e.implicit(st, s)
@@ -539,6 +643,7 @@ func (e *r2pPrinter) onStmt(st *r2pState, s ast.Stmt) (*r2pState, bool) {
 							for _, a := range call.Args {
 								ts = append(ts, e.eval(st, a))
 							}
+							ts = append(ts, e.implicit(st, s)) // text written under a branch on a flag prints the flag
 							st.tmpl[o] = r2pCat(append([]r2pTmpl{st.tmpl[o]}, ts...)...)
 						}
 					}
@@ -559,6 +664,8 @@ func (e *r2pPrinter) onStmt(st *r2pState, s ast.Stmt) (*r2pState, bool) {
 
 type r2pPrintResult struct {
 	all, delims []Obligation
+	methods     []*r2pMethodInfo
+	infos       map[*travStruct]*r2pMethodInfo
 }
 
 var r2pPrintCache = map[*Ctx]*r2pPrintResult{}
@@ -574,6 +681,23 @@ type r2pMethodInfo struct {
 	fd   *ast.FuncDecl
 	pkg  *packages.Package
 	sigs map[string]map[string]string // top-level field -> signature -> witness (template of a path)
+	// R-print-payload / R-print-bare-guard (rules_r3print_fmt.go)
+	fmts map[string]map[string]*r2pFmtRec  // top-level field -> formatting chain -> record
+	bare map[string]map[string]*r2pBareRec // top-level field -> guard function + value -> record
+}
+
+type r2pFmtRec struct {
+	chain   []string
+	quoted  bool            // printed between double quotes
+	exact   map[string]bool // conversions whose exactness the path has tested (type names)
+	witness string
+}
+
+type r2pBareRec struct {
+	via     string // name of the helper the guard sits in ("" = in the printer itself)
+	fn      *types.Func
+	val     bool // the value of the guard on the path that prints the text bare
+	witness string
 }
 
 func r2pPrintRun(c *Ctx) *r2pPrintResult {
@@ -601,7 +725,8 @@ func r2pPrintRun(c *Ctx) *r2pPrintResult {
 			if s == nil || s.IsSem || s.T == m.identT {
 				continue
 			}
-			mi := &r2pMethodInfo{s: s, fd: fd, pkg: p, sigs: map[string]map[string]string{}}
+			mi := &r2pMethodInfo{s: s, fd: fd, pkg: p, sigs: map[string]map[string]string{},
+				fmts: map[string]map[string]*r2pFmtRec{}, bare: map[string]map[string]*r2pBareRec{}}
 			infos[s] = mi
 			order = append(order, mi)
 		}
@@ -610,6 +735,7 @@ func r2pPrintRun(c *Ctx) *r2pPrintResult {
 	for _, mi := range order {
 		res.all = append(res.all, r2pPrintMethod(c, m, mi)...)
 	}
+	res.methods, res.infos = order, infos
 	// delimiters
 	for _, mi := range order {
 		var fields []string
@@ -838,7 +964,28 @@ func r2pPrintMethod(c *Ctx, m *travModel, mi *r2pMethodInfo) []Obligation {
 			if be, ok := ast.Unparen(cond).(*ast.BinaryExpr); ok && ((be.Op == token.EQL && taken) || (be.Op == token.NEQ && !taken)) {
 				noteKind(st, be.X, []ast.Expr{be.Y})
 				zeroConst(st, be.X, []ast.Expr{be.Y})
+				// T(U(p)) == p: converting p to U is exact on this path
+				for _, pair := range [][2]ast.Expr{{be.X, be.Y}, {be.Y, be.X}} {
+					pa, pb := env.pathOf(st, pair[0]), env.pathOf(st, pair[1])
+					if pa == "" || pa != pb {
+						continue
+					}
+					if outer, ok := ast.Unparen(pair[0]).(*ast.CallExpr); ok && len(outer.Args) == 1 {
+						switch inner := ast.Unparen(outer.Args[0]).(type) {
+						case *ast.CallExpr:
+							if tv, ok := env.info.Types[inner.Fun]; ok && tv.IsType() && len(inner.Args) == 1 {
+								st.ctrl["exact:"+pa+":"+types.TypeString(tv.Type, func(*types.Package) string { return "" })] = true
+							}
+						case *ast.Ident:
+							// asInt := int64(p); float64(asInt) == p
+							if t := st.tmpl[env.info.Uses[inner]]; len(t) == 1 && len(t[0].chain) == 1 && strings.HasPrefix(t[0].chain[0], "conv:") {
+								st.ctrl["exact:"+pa+":"+strings.TrimPrefix(t[0].chain[0], "conv:")] = true
+							}
+						}
+					}
+				}
 			}
+			pr.noteGuard(st, cond, taken)
 			return st, true
 		},
 		OnCase: func(st *r2pState, sw *ast.SwitchStmt, vals []ast.Expr, others []ast.Expr) (*r2pState, bool) {
@@ -912,6 +1059,7 @@ func r2pPrintMethod(c *Ctx, m *travModel, mi *r2pMethodInfo) []Obligation {
 					continue
 				}
 				sig := r2pSig(t, i)
+				r2pRecordFormat(mi, root, st, t, sg, sig)
 				for hp := range sg.hole {
 					parts := strings.Split(hp, ".")
 					if len(parts) < 2 || parts[0] != root {
@@ -952,4 +1100,80 @@ func r2pPrintMethod(c *Ctx, m *travModel, mi *r2pMethodInfo) []Obligation {
 		obs = append(obs, ob)
 	}
 	return obs
+}
+
+// r2pRecordFormat notes, for R-print-payload and R-print-bare-guard, how the text of a hole is formatted on this path.
+func r2pRecordFormat(mi *r2pMethodInfo, root string, st *r2pState, t r2pTmpl, sg r2pSeg, sig string) {
+	quoted := strings.Contains(strings.SplitN(sig, "…", 2)[0], `"`)
+	for _, hp := range r2pSorted(sg.hole) {
+		parts := strings.Split(hp, ".")
+		if len(parts) < 2 || parts[0] != root {
+			continue
+		}
+		f := mi.s.Field(parts[1])
+		if f == nil {
+			continue
+		}
+		key := strings.Join(sg.chain, " ")
+		if quoted {
+			key = "quoted " + key
+		}
+		if mi.fmts[f.Name] == nil {
+			mi.fmts[f.Name] = map[string]*r2pFmtRec{}
+		}
+		rec := mi.fmts[f.Name][key]
+		if rec == nil {
+			rec = &r2pFmtRec{chain: append([]string(nil), sg.chain...), quoted: quoted, exact: map[string]bool{}, witness: t.String()}
+			// conversions tested for exactness on this path
+			for k := range st.ctrl {
+				if strings.HasPrefix(k, "exact:"+hp+":") {
+					rec.exact[strings.TrimPrefix(k, "exact:"+hp+":")] = true
+				}
+			}
+			mi.fmts[f.Name][key] = rec
+		} else {
+			// exactness must hold on every path that uses this chain
+			for k := range rec.exact {
+				if !st.ctrl["exact:"+hp+":"+k] {
+					delete(rec.exact, k)
+				}
+			}
+		}
+		if !quoted {
+			for _, g := range st.guards {
+				if !r2pCovers(g.paths, hp) {
+					continue
+				}
+				if mi.bare[f.Name] == nil {
+					mi.bare[f.Name] = map[string]*r2pBareRec{}
+				}
+				k := fmt.Sprintf("%s=%v", g.fn.FullName(), g.val)
+				if mi.bare[f.Name][k] == nil {
+					mi.bare[f.Name][k] = &r2pBareRec{fn: g.fn, val: g.val, witness: fmt.Sprintf("%s is %v at line %d, returned %s", g.fn.Name(), g.val, g.line, t.String())}
+				}
+			}
+		}
+	}
+}
+
+// noteGuard records a string predicate of the module decided on (a part of) the printed text.
+func (e *r2pPrinter) noteGuard(st *r2pState, cond ast.Expr, taken bool) {
+	call, ok := ast.Unparen(cond).(*ast.CallExpr)
+	if !ok || len(call.Args) != 1 {
+		return
+	}
+	callee := CalleeOf(e.info, call)
+	if callee == nil || e.m.decls[callee] == nil {
+		return
+	}
+	sg := callee.Type().(*types.Signature)
+	if sg.Recv() != nil || sg.Params().Len() != 1 || sg.Results().Len() != 1 || !r2pIsString(sg.Params().At(0).Type()) {
+		return
+	}
+	if b, ok := types.Unalias(sg.Results().At(0).Type()).Underlying().(*types.Basic); !ok || b.Kind() != types.Bool {
+		return
+	}
+	if hs := e.eval(st, call.Args[0]).holes(); len(hs) > 0 {
+		st.guards = append(st.guards, r2pGuardRec{fn: callee, paths: hs, val: taken, line: e.line(call.Pos())})
+	}
 }
